@@ -555,6 +555,11 @@ type (
 
 // UnmarshalJSON decodes an incoming JSON document into the receiver object.
 func (m *MimeType) UnmarshalJSON(data []byte) error {
+	if v, err := fastjson.ParseBytes(data); err == nil && v.Type() == fastjson.TypeString {
+		// NOTE(marius): a quoted parameter (charset="utf-8") arrives escaped
+		*m = MimeType(v.GetStringBytes())
+		return nil
+	}
 	*m = MimeType(strings.Trim(string(data), "\""))
 	return nil
 }
@@ -719,7 +724,8 @@ func GetAPSource(val *fastjson.Value) Source {
 		}
 	}
 	if mimeBytes := val.Get("source", "mediaType").GetStringBytes(); len(mimeBytes) > 0 {
-		s.MediaType.UnmarshalJSON(mimeBytes)
+		// NOTE(marius): these are the decoded bytes of the string, not a JSON document
+		s.MediaType = MimeType(mimeBytes)
 	}
 
 	return s
